@@ -237,11 +237,14 @@ impl CraneliftCompiler {
         let mem_or_mbuf_len = bcx.ins().select(mbuf_exists, mbuf_len, mem_len);
         bcx.def_var(self.registers[2], mem_or_mbuf_len);
 
-        // Insert the *actual* initial block
-        let program_entry = bcx.create_block();
+        // Insert the *actual* initial block. A jump back to the first instruction has already
+        // registered a block for it in build_cfg(): reuse that one.
+        let program_entry = *self
+            .insn_blocks
+            .entry(0)
+            .or_insert_with(|| bcx.create_block());
         bcx.ins().jump(program_entry, &[]);
         self.filled_blocks.insert(bcx.current_block().unwrap());
-        self.insn_blocks.insert(0, program_entry);
 
         Ok(())
     }
